@@ -340,12 +340,27 @@ func main() {
 			ini := simplefixgo.NewInitiator(conn, h, buf, 5*time.Second)
 			done := make(chan struct{})
 			go func() { ini.Serve(); close(done) }()
-			chunks, inside := partition(r, sent[0], strategy)
+			// every third connection (another third): an all-types observer is attached while traffic flows — after the
+			// first half of the messages has been delivered; it is given every message of the second half
+			late := i%3 == 1 && nmsg >= 2
+			half := nmsg / 2
+			var chunks, chunksB [][]byte
+			var inside int
+			if late {
+				var in2 int
+				chunks, inside = partition(r, sent[0][:half], strategy)
+				chunksB, in2 = partition(r, sent[0][half:], strategy)
+				inside += in2
+				c.Count("connections_with_an_observer_attached_mid_stream", 1)
+			} else {
+				chunks, inside = partition(r, sent[0], strategy)
+			}
 			totalInside += inside
-			for _, ch := range chunks {
+			for _, ch := range append(append([][]byte(nil), chunks...), chunksB...) {
 				sig = append(sig, byte(len(ch)), byte(len(ch)>>8))
 				c.SetAdd("chunk_size_classes", sizeClass(len(ch)))
 			}
+			var gotLate [][]byte
 			// outbound traffic at the same time
 			outN := r.Intn(4)
 			useRaw := r.Intn(2) == 0
@@ -380,6 +395,17 @@ func main() {
 				}(g)
 			}
 			feed(r, conn, chunks, delay)
+			if late {
+				waitFor(func() bool { mu.Lock(); defer mu.Unlock(); return len(got) >= half }, 10*time.Second, conn)
+				time.Sleep(2 * time.Millisecond) // the dispatch of message #half has returned from the recorder; let the loop finish it
+				h.HandleIncoming(simplefixgo.AllMsgTypes, func(m []byte) bool {
+					mu.Lock()
+					gotLate = append(gotLate, append([]byte(nil), m...))
+					mu.Unlock()
+					return true
+				})
+				feed(r, conn, chunksB, delay)
+			}
 			waitFor(func() bool { mu.Lock(); defer mu.Unlock(); return len(got) >= nmsg }, 10*time.Second, conn)
 			wg.Wait()
 			waitFor(func() bool { return len(conn.Written()) >= totalLen(outSent) }, 5*time.Second, conn)
@@ -388,6 +414,13 @@ func main() {
 			g2 := append([][]byte(nil), got...)
 			mu.Unlock()
 			compare(c, "inbound/"+mode, sent[0], g2, replay)
+			if late {
+				waitFor(func() bool { mu.Lock(); defer mu.Unlock(); return len(gotLate) >= nmsg-half }, 2*time.Second, conn)
+				mu.Lock()
+				gl := append([][]byte(nil), gotLate...)
+				mu.Unlock()
+				compare(c, "inbound/"+mode+"/observer-attached-mid-stream", sent[0][half:], gl, replay)
+			}
 			if oneShot {
 				waitFor(func() bool { mu.Lock(); defer mu.Unlock(); return len(got2) >= nmsg }, 2*time.Second, conn)
 				mu.Lock()
